@@ -1,3 +1,131 @@
-Require Import Codec.
-Theorem placeholder : True. Proof. exact I. Qed.
-Print Assumptions placeholder.
+(* C03 - a frame or time window read equals the same slice of a full read.
+   Only statements, closed by [exact], each followed by Print Assumptions. *)
+From Coq Require Import ZArith NArith List String Bool.
+Require Import ListN Result Bytes Prog Codec PoseRead CodecRT PoseReadLemmas WindowLemmas StreamRead C03_Window CodecGenTie C03_Examples.
+Import ListNotations.
+Open Scope N_scope.
+
+(* Window read from a byte string.  For EVERY written file [bs] (any pose the writer accepts), every consistent
+   memo state, every combination of start_frame / start_time / end_frame / end_time without a conflict whose
+   bounds resolve (time -> frame by floor / ceil of the binary64 product ms/1000*fps) to a valid window
+   (start = 0 or start < frames; start <= min(end, frames)): the result has the file's header and exactly
+   frames [start, min(end, frames)) of the full read's fps, data, confidence and mask ([window_pose] is the
+   slice of [canon p], the full-read result of C01). *)
+Theorem C03_window_bytes :
+  forall legacy m p bs a s e,
+    MemoOK m -> write_pose p = Ok bs -> wf_arrays p -> 1 <= nth 3 (w_shape p) 0 ->
+    conflict (a_sf a) (a_st a) = false -> conflict (a_ef a) (a_et a) = false ->
+    resolve_start (fps_word p) (a_sf a) (a_st a) = Ok s -> resolve_end (fps_word p) (a_ef a) (a_et a) = Ok e ->
+    valid_window p s e ->
+    fst (read_bytes legacy m bs a) = Ok (window_pose p s e).
+Proof. exact read_bytes_window. Qed.
+Print Assumptions C03_window_bytes.
+
+(* The same from a seekable stream (BytesIOReader: prefetch of any length, skips that drop prefetched bytes,
+   refills), for every memo state; the memo left behind is the one a bytes read leaves. *)
+Theorem C03_window_stream :
+  forall legacy m p bs a s e,
+    MemoOK m -> write_pose p = Ok bs -> wf_arrays p -> 1 <= nth 3 (w_shape p) 0 ->
+    any_arg a = true ->
+    conflict (a_sf a) (a_st a) = false -> conflict (a_ef a) (a_et a) = false ->
+    resolve_start (fps_word p) (a_sf a) (a_st a) = Ok s -> resolve_end (fps_word p) (a_ef a) (a_et a) = Ok e ->
+    valid_window p s e ->
+    fst (fst (read_stream legacy m bs a)) = Ok (window_pose p s e) /\
+    snd (fst (read_stream legacy m bs a)) = snd (read_bytes legacy m bs a).
+Proof. exact read_stream_window. Qed.
+Print Assumptions C03_window_stream.
+
+(* More generally, for ANY byte string (not only written files): whenever the bytes read succeeds and the body
+   decoder is a v0.2 one, the stream read returns the same pose and memo. *)
+Theorem C03_stream_simulates_bytes :
+  forall legacy m q a pose,
+    MemoOK m -> any_arg a = true ->
+    (forall h r, run_plain rd_header {| pbuf := q; poff := 0 |} = Ok (h, r) -> StreamLemmas.v2prog (read_body legacy h a)) ->
+    fst (read_bytes legacy m q a) = Ok pose ->
+    fst (fst (read_stream legacy m q a)) = Ok pose /\ snd (fst (read_stream legacy m q a)) = snd (read_bytes legacy m q a).
+Proof. exact read_stream_as_bytes. Qed.
+Print Assumptions C03_stream_simulates_bytes.
+
+Theorem C03_stream_without_window_args :
+  forall legacy m file a, any_arg a = false -> fst (read_stream legacy m file a) = read_bytes legacy m file a.
+Proof. exact read_stream_noargs. Qed.
+Print Assumptions C03_stream_without_window_args.
+
+(* argument conflicts and a start at or beyond the last frame are rejected *)
+Theorem C03_conflict_rejected :
+  forall legacy m p bs a, MemoOK m -> write_pose p = Ok bs ->
+    conflict (a_sf a) (a_st a) || conflict (a_ef a) (a_et a) = true ->
+    exists e, fst (read_bytes legacy m bs a) = Err e.
+Proof. exact conflict_rejected_bytes. Qed.
+Print Assumptions C03_conflict_rejected.
+Theorem C03_start_beyond_rejected :
+  forall legacy m p bs a s, MemoOK m -> write_pose p = Ok bs -> wf_arrays p ->
+    conflict (a_sf a) (a_st a) = false -> conflict (a_ef a) (a_et a) = false ->
+    resolve_start (fps_word p) (a_sf a) (a_st a) = Ok (Some s) -> (0 < s)%Z -> (frames_of p <= s)%Z ->
+    exists e, fst (read_bytes legacy m bs a) = Err e.
+Proof. exact start_beyond_rejected_bytes. Qed.
+Print Assumptions C03_start_beyond_rejected.
+
+(* non-vacuity: a 3-frame file, the window [1,2) given in frames and in milliseconds *)
+Theorem C03_example_file : (exists bs, write_pose ex3 = Ok bs) /\ wf_arrays ex3 /\ 1 <= nth 3 (w_shape ex3) 0.
+Proof. exact (conj ex3_written ex3_wf). Qed.
+Print Assumptions C03_example_file.
+Theorem C03_example_frame_window :
+  any_arg ex3_frames = true /\
+  conflict (a_sf ex3_frames) (a_st ex3_frames) = false /\ conflict (a_ef ex3_frames) (a_et ex3_frames) = false /\
+  resolve_start (fps_word ex3) (a_sf ex3_frames) (a_st ex3_frames) = Ok (Some 1%Z) /\
+  resolve_end (fps_word ex3) (a_ef ex3_frames) (a_et ex3_frames) = Ok (Some 2%Z) /\
+  valid_window ex3 (Some 1%Z) (Some 2%Z).
+Proof. exact ex3_frames_hyps. Qed.
+Print Assumptions C03_example_frame_window.
+Theorem C03_example_time_window :
+  conflict (a_sf ex3_times) (a_st ex3_times) = false /\ conflict (a_ef ex3_times) (a_et ex3_times) = false /\
+  resolve_start (fps_word ex3) (a_sf ex3_times) (a_st ex3_times) = Ok (Some 1%Z) /\
+  resolve_end (fps_word ex3) (a_ef ex3_times) (a_et ex3_times) = Ok (Some 2%Z).
+Proof. exact ex3_times_hyps. Qed.
+Print Assumptions C03_example_time_window.
+Theorem C03_example_beyond :
+  resolve_start (fps_word ex3) (Some 3%Z) None = Ok (Some 3%Z) /\ (0 < 3)%Z /\ (frames_of ex3 <= 3)%Z.
+Proof. exact ex3_beyond. Qed.
+Print Assumptions C03_example_beyond.
+
+(* ties to the current source *)
+Theorem C03_tie_body_read_v0_2 : Gen_Codec.body_read_v0_2 = exp_body_read_v0_2.
+Proof. exact body_read_v0_2_tie. Qed.
+Print Assumptions C03_tie_body_read_v0_2.
+Theorem C03_tie_body_read_frames : Gen_Codec.body_read_frames = exp_body_read_frames.
+Proof. exact body_read_frames_tie. Qed.
+Print Assumptions C03_tie_body_read_frames.
+Theorem C03_tie_struct_table : Gen_Codec.struct_table = exp_struct_table.
+Proof. exact struct_table_tie. Qed.
+Print Assumptions C03_tie_struct_table.
+Theorem C03_tie_pose_read : Gen_Codec.pose_read = exp_pose_read.
+Proof. exact pose_read_tie. Qed.
+Print Assumptions C03_tie_pose_read.
+Theorem C03_tie_reader_bytes_left : Gen_Codec.reader_bytes_left = exp_reader_bytes_left.
+Proof. exact reader_bytes_left_tie. Qed.
+Print Assumptions C03_tie_reader_bytes_left.
+Theorem C03_tie_reader_unpack_numpy : Gen_Codec.reader_unpack_numpy = exp_reader_unpack_numpy.
+Proof. exact reader_unpack_numpy_tie. Qed.
+Print Assumptions C03_tie_reader_unpack_numpy.
+Theorem C03_tie_reader_unpack : Gen_Codec.reader_unpack = exp_reader_unpack.
+Proof. exact reader_unpack_tie. Qed.
+Print Assumptions C03_tie_reader_unpack.
+Theorem C03_tie_reader_advance : Gen_Codec.reader_advance = exp_reader_advance.
+Proof. exact reader_advance_tie. Qed.
+Print Assumptions C03_tie_reader_advance.
+Theorem C03_tie_reader_skip : Gen_Codec.reader_skip = exp_reader_skip.
+Proof. exact reader_skip_tie. Qed.
+Print Assumptions C03_tie_reader_skip.
+Theorem C03_tie_stream_reader_init : Gen_Codec.stream_reader_init = exp_stream_reader_init.
+Proof. exact stream_reader_init_tie. Qed.
+Print Assumptions C03_tie_stream_reader_init.
+Theorem C03_tie_stream_reader_skip : Gen_Codec.stream_reader_skip = exp_stream_reader_skip.
+Proof. exact stream_reader_skip_tie. Qed.
+Print Assumptions C03_tie_stream_reader_skip.
+Theorem C03_tie_stream_reader_read_chunk : Gen_Codec.stream_reader_read_chunk = exp_stream_reader_read_chunk.
+Proof. exact stream_reader_read_chunk_tie. Qed.
+Print Assumptions C03_tie_stream_reader_read_chunk.
+Theorem C03_tie_stream_reader_expect_to_read : Gen_Codec.stream_reader_expect_to_read = exp_stream_reader_expect_to_read.
+Proof. exact stream_reader_expect_to_read_tie. Qed.
+Print Assumptions C03_tie_stream_reader_expect_to_read.
